@@ -409,9 +409,9 @@ func (p *pool) evalLayer(slot **worker, blob []byte, timeout time.Duration, conc
 		default:
 			// Between calls (collection, Layer.Close, frame handling): charge
 			// the layer as a whole.
-			if res.init.status == "" || res.init.status == "ok" {
-				res.init = callRes{status: what, msg: "between calls: " + msg}
-			}
+			// (whatever Init had answered: a worker that dies after a failed
+			// Init died of what that Init left behind)
+			res.init = callRes{status: what, msg: fmt.Sprintf("between calls (Layer.Init had answered %q): %s", res.init.status, msg)}
 			return res
 		}
 	}
